@@ -274,7 +274,7 @@ func (p *parser) parseSlice(tok *lexer.Token, left, start Node) Node {
 			return nil
 		}
 	}
-	p.advance() // advance past ]
+	p.advanceWSS() // advance past ]
 
 	if start != nil && start.Type() != NUM_TYPE {
 		p.appendErrorForToken(leftType.name()+" start index expects num, found "+start.Type().String(), tok)
